@@ -102,9 +102,15 @@ def conclude(pid, tier, seed, summaries, known, wall, extra_results=()):
     os.makedirs(os.path.join(OUT, "evidence"), exist_ok=True)
     known_hit = {}
     nrep = 0
+    native_seen = set()
+    degraded = []
     for spec, summ in summaries:
         for e in summ.errors:
-            errors.append("%s: %s" % (spec.name, e))
+            if e.startswith("[error] Unmodelled:") and "solver disagreement" not in e:
+                # a path of this tree runs into something no model covers: that path is not decided (DEGRADED), others are
+                degraded.append("%s: path not explored, %s" % (spec.name, e.splitlines()[0][8:220]))
+            else:
+                errors.append("%s: %s" % (spec.name, e))
         if summ.by_status.get("inconclusive"):
             inconclusive.append("%s: %d inconclusive paths" % (spec.name, summ.by_status["inconclusive"]))
         if summ.incomplete:
@@ -112,7 +118,29 @@ def conclude(pid, tier, seed, summaries, known, wall, extra_results=()):
         if summ.missing_covers:
             errors.append("%s: cover labels never reached (vacuity guard): %s" % (spec.name, summ.missing_covers))
         for vf in summ.validation_failures:
-            errors.append("%s: path witness disagrees with native execution: %s" % (spec.name, json.dumps(vf, default=str)[:600]))
+            why = str(vf.get("why"))
+            wit = (vf.get("sample") or {}).get("witness")
+            if why.startswith("native run failed checks") and wit is not None:
+                # the solver-chosen witness of an explored path, run natively on the real code, fails an assertion that the
+                # symbolic run of that path had discharged: the models do not capture this tree on that path, but the
+                # failing execution is real and replayable -- it is a violation (re-run once more here, then reported)
+                S, err = R.run_native(spec, tier, wit)
+                bad = [c for c in S.failed]
+                if bad and not err:
+                    lab = bad[0]
+                    if ("native:" + lab) in native_seen:
+                        continue
+                    native_seen.add("native:" + lab)
+                    nrep += 1
+                    path = os.path.join(OUT, "replays", "%s-%s-%d.json" % (pid, spec.name, nrep))
+                    json.dump({"property": pid, "spec": spec.name, "module": spec.module, "tier": tier, "label": lab,
+                               "witness": wit, "found_by": "native run of a solver-generated path witness"}, open(path, "w"), indent=1, default=str)
+                    violations_confirmed += 1
+                    lines.append("VIOLATION property=%s replay=%s" % (pid, path))
+                    lines.append("  check '%s' fails in harness %s when the solver's witness of an explored path is run natively on the real code (failed natively: %s); "
+                                 "the symbolic run of that path had not seen it (model imprecision on this tree)" % (lab, spec.name, bad))
+                    continue
+            degraded.append("%s: the models do not capture this tree on an explored path (%s); witness %s" % (spec.name, why[:200], json.dumps(wit, default=str)[:200]))
         for lab, k in summ.knowns.items():
             known_hit[lab] = k
         seen = set()
@@ -130,9 +158,13 @@ def conclude(pid, tier, seed, summaries, known, wall, extra_results=()):
                 violations_confirmed += 1
                 lines.append("VIOLATION property=%s replay=%s" % (pid, path))
                 lines.append("  check '%s' fails in harness %s; native replay confirms (failed natively: %s)" % (v["label"], spec.name, S.failed))
+            elif err:
+                errors.append("%s: counterexample for '%s' could not be replayed natively (err=%s); replay=%s" % (spec.name, v["label"], err, path))
             else:
-                errors.append("%s: counterexample for '%s' does not reproduce natively (native failed=%s err=%s) -> model/interpreter error; replay=%s"
-                              % (spec.name, v["label"], S.failed, err, path))
+                # the real code does not fail on the solver's witness: the counterexample is an artefact of a model that
+                # does not fit this tree.  Not a violation, and not a proof either: reported as DEGRADED
+                degraded.append("%s: a symbolic counterexample for '%s' does not reproduce on the real code (model imprecision on this tree); replay=%s"
+                                % (spec.name, v["label"], path))
     for er in extra_results:
         lines.extend(er.get("lines", []))
         violations_confirmed += er.get("violations", 0)
@@ -159,10 +191,12 @@ def conclude(pid, tier, seed, summaries, known, wall, extra_results=()):
         print("HARNESS-ERROR:", e)
     for e in inconclusive[:20]:
         print("INCONCLUSIVE:", e)
-    degraded = sorted({"%s: %s" % (spec.name, n) for spec, summ in summaries for n in summ.notes if n.startswith("SAMPLED:")})
+    for er in extra_results:
+        degraded.extend(er.get("degraded", []))
+    degraded = sorted(set(degraded) | {"%s: %s" % (spec.name, n) for spec, summ in summaries for n in summ.notes if n.startswith("SAMPLED:")})
     for d in degraded[:12]:
-        print("DEGRADED:", d, "-- outside the modelled fragment; the all-values claim is not made for the paths through it")
-    write_evidence(pid, tier, seed, summaries, wall, violations_confirmed, errors, inconclusive, known_hit, extra_results)
+        print("DEGRADED:", d, "-- this tree leaves the modelled fragment there; the all-values claim is not made for that part")
+    write_evidence(pid, tier, seed, summaries, wall, violations_confirmed, errors, inconclusive, known_hit, extra_results, degraded)
     print("RESULT property=%s tier=%s exit=%d wall=%.1fs" % (pid, tier, code, wall))
     return code
 
@@ -178,7 +212,7 @@ def _shrink(o, limit=160):
     return o
 
 
-def write_evidence(pid, tier, seed, summaries, wall, nviol, errors, inconclusive, known_hit, extra_results=()):
+def write_evidence(pid, tier, seed, summaries, wall, nviol, errors, inconclusive, known_hit, extra_results=(), degraded=()):
     states = sum(s.paths for _, s in summaries)
     transitions = sum(s.decisions for _, s in summaries)
     samples = []
@@ -213,11 +247,11 @@ def write_evidence(pid, tier, seed, summaries, wall, nviol, errors, inconclusive
         "harnesses": per,
         "known_findings_hit": sorted(known_hit.keys()),
         "harness_errors": errors[:10], "inconclusive": inconclusive[:10],
-        "sampled_call_sites": sorted({"%s: %s" % (spec.name, n) for spec, s in summaries for n in s.notes if n.startswith("SAMPLED:")}),
+        "degraded": list(degraded)[:20],
         "explanation": "states = symbolic paths explored (each path = one run of the real source under the meta-"
                        "interpreter with a solver-checked path condition); transitions = branch decisions; every "
                        "obligation is a solver query path_condition AND NOT(property) that must be unsat",
-        "exhaustive": not inconclusive and not errors and not any(n.startswith("SAMPLED:") for _, s in summaries for n in s.notes),
+        "exhaustive": not inconclusive and not errors and not degraded,
     }
     for er in extra_results:
         for k, v in er.get("coverage", {}).items():
